@@ -2,7 +2,7 @@
 //! the call's result and the projection of the whole object onto the abstract WMO of specs/WmoEditor.tla.
 //! It records; TLC (Trace_WmoEditor) decides.
 //!
-//! case: {kind, init: 0|1|2, ops: [{op, id, a, b, c}]}
+//! case: {kind, init: 0|1|2, ops: [{op, id, a, b, c, d}]}
 //! ids: texture "t<id>.blp", material.shader = id, group info name "g<id>", vertex.x = id, doodad def name_offset = id,
 //!      doodad set name "s<id>".
 use serde_json::{json, Value};
@@ -10,7 +10,7 @@ use std::collections::HashMap;
 use std::io::Cursor;
 use wow_wmo::{
     BoundingBox, Color, Vec3, WmoBatch, WmoDoodadDef, WmoDoodadSet, WmoEditor, WmoFlags, WmoGroup, WmoGroupFlags, WmoGroupHeader,
-    WmoGroupInfo, WmoHeader, WmoMaterial, WmoMaterialFlags, WmoParser, WmoRoot, WmoVersion,
+    WmoGroupInfo, WmoHeader, WmoMaterial, WmoMaterialFlags, WmoParser, WmoPortalReference, WmoRoot, WmoVersion,
 };
 use wverif_common::*;
 
@@ -58,10 +58,10 @@ fn version_ord(v: WmoVersion) -> i64 {
 }
 
 fn make_root(init: i64) -> WmoRoot {
-    let (tex, mats, gis, dds, dss): (Vec<i64>, Vec<(i64, i64, i64)>, Vec<i64>, Vec<i64>, Vec<(i64, i64, i64)>) = match init {
-        0 => (vec![], vec![], vec![], vec![], vec![]),
-        1 => (vec![1, 2], vec![(3, 0, 1), (4, 1, 1)], vec![5, 6], vec![7, 8, 9], vec![(10, 0, 2), (11, 2, 1)]),
-        2 => (vec![1], vec![(3, 0, 0)], vec![5], vec![7], vec![(10, 0, 1), (11, 1, 0)]),
+    let (tex, mats, gis, dds, dss, prs): (Vec<i64>, Vec<(i64, i64, i64)>, Vec<i64>, Vec<i64>, Vec<(i64, i64, i64)>, Vec<u16>) = match init {
+        0 => (vec![], vec![], vec![], vec![], vec![], vec![]),
+        1 => (vec![1, 2], vec![(3, 0, 1), (4, 1, 1)], vec![5, 6], vec![7, 8, 9], vec![(10, 0, 2), (11, 2, 1)], vec![0, 1, 1]),
+        2 => (vec![1], vec![(3, 0, 0)], vec![5], vec![7], vec![(10, 0, 1), (11, 1, 0)], vec![0]),
         k => tool_error(&format!("unknown init {k}")),
     };
     WmoRoot {
@@ -69,7 +69,7 @@ fn make_root(init: i64) -> WmoRoot {
         materials: mats.iter().map(|m| mat(m.0, m.1, m.2)).collect(),
         groups: gis.iter().map(|g| ginfo(*g)).collect(),
         portals: vec![],
-        portal_references: vec![],
+        portal_references: prs.iter().map(|g| WmoPortalReference { portal_index: 0, group_index: *g, side: 0 }).collect(),
         visible_block_lists: vec![],
         lights: vec![],
         doodad_defs: dds.iter().map(|d| dd(*d)).collect(),
@@ -93,7 +93,7 @@ fn make_root(init: i64) -> WmoRoot {
     }
 }
 
-fn make_group(id: i64, gidx: i64, nv: i64, m: i64) -> WmoGroup {
+fn make_group(id: i64, gidx: i64, nv: i64, m: i64, d: i64) -> WmoGroup {
     let vertices: Vec<Vec3> = (1..=nv).map(|k| v3((id * 10 + k) as f32)).collect();
     let indices: Vec<u16> = if nv == 0 { vec![] } else { (0..3).map(|k| (k % nv) as u16).collect() };
     let batches = if m < 0 {
@@ -103,16 +103,16 @@ fn make_group(id: i64, gidx: i64, nv: i64, m: i64) -> WmoGroup {
     };
     WmoGroup {
         header: WmoGroupHeader { flags: WmoGroupFlags::empty(), bounding_box: bb(), name_offset: 0, group_index: gidx as u32 },
-        materials: vec![],
+        materials: if m < 0 { vec![] } else { vec![m as u16] },
+        normals: if nv == 3 { vertices.iter().map(|_| Vec3 { x: 0.0, y: 0.0, z: 1.0 }).collect() } else { vec![] },
         vertices,
-        normals: vec![],
         tex_coords: vec![],
         batches,
         indices,
         vertex_colors: None,
         bsp_nodes: None,
         liquid: None,
-        doodad_refs: None,
+        doodad_refs: if d < 0 { None } else { Some(vec![d as u16]) },
     }
 }
 
@@ -132,6 +132,9 @@ fn project(e: &WmoEditor) -> Value {
             "v": g.vertices.iter().map(|v| v.x as i64).collect::<Vec<_>>(),
             "ix": g.indices.iter().map(|x| *x as i64).collect::<Vec<_>>(),
             "bm": g.batches.iter().map(|b| b.material_id as i64).collect::<Vec<_>>(),
+            "na": g.normals.len(),
+            "ml": g.materials.iter().map(|x| *x as i64).collect::<Vec<_>>(),
+            "dr": g.doodad_refs.as_ref().map(|v| v.iter().map(|x| *x as i64).collect::<Vec<_>>()).unwrap_or_default(),
         }));
         i += 1;
     }
@@ -145,6 +148,7 @@ fn project(e: &WmoEditor) -> Value {
         "ds": r.doodad_sets.iter().map(|s| json!({"id": num_id(&s.name), "st": s.start_doodad, "n": s.n_doodads})).collect::<Vec<_>>(),
         "hdr": {"nmat": r.header.n_materials, "ngrp": r.header.n_groups, "ndd": r.header.n_doodad_defs, "ndn": r.header.n_doodad_names,
                 "nds": r.header.n_doodad_sets},
+        "pr": r.portal_references.iter().map(|p| p.group_index as i64).collect::<Vec<_>>(),
         "rmod": e.is_root_modified(),
         "ver": version_ord(e.current_version()),
         "orig": version_ord(e.original_version()),
@@ -160,7 +164,7 @@ fn cls<T>(r: &Result<T, wow_wmo::WmoError>) -> String {
 
 /// One call. Returns (res, variant, ret, back) — back = lengths read back by the parser from the saved root ([-1;5] otherwise).
 fn call(e: &mut WmoEditor, o: &Value) -> (String, String, i64, Value) {
-    let (op, id, a, b, c) = (gs(o, "op").to_string(), gi(o, "id"), gi(o, "a"), gi(o, "b"), gi(o, "c"));
+    let (op, id, a, b, c, d) = (gs(o, "op").to_string(), gi(o, "id"), gi(o, "a"), gi(o, "b"), gi(o, "c"), gi(o, "d"));
     let none = json!([-1, -1, -1, -1, -1]);
     let out = guarded(|| -> (String, String, i64, Value) {
         let mut back = none.clone();
@@ -184,7 +188,7 @@ fn call(e: &mut WmoEditor, o: &Value) -> (String, String, i64, Value) {
             "add_material" => ("ok".into(), variant, e.add_material(mat(id, a, b)) as i64, back),
             "remove_material" => fin!(e.remove_material(a as usize), |_x: &WmoMaterial| 0),
             "create_group" => ("ok".into(), variant, e.create_group(format!("g{id}")) as i64, back),
-            "add_group" => fin!(e.add_group(make_group(id, a, b, c)), |_x: &()| 0),
+            "add_group" => fin!(e.add_group(make_group(id, a, b, c, d)), |_x: &()| 0),
             "remove_group" => fin!(e.remove_group(a as usize), |_x: &WmoGroupInfo| 0),
             "add_vertex" => fin!(e.add_vertex(a as usize, v3(id as f32)), |x: &usize| *x as i64),
             "remove_vertex" => fin!(e.remove_vertex(a as usize, b as usize), |_x: &Vec3| 0),
@@ -238,7 +242,7 @@ fn main() {
         trace.ev(json!({"ev": "Reset", "case": ci, "init": init, "st": project(&e)}));
         for o in ga(case, "ops") {
             let (res, variant, ret, back) = call(&mut e, o);
-            trace.ev(json!({"ev": "Call", "case": ci, "op": gs(o, "op"), "id": gi(o, "id"), "a": gi(o, "a"), "b": gi(o, "b"), "c": gi(o, "c"),
+            trace.ev(json!({"ev": "Call", "case": ci, "op": gs(o, "op"), "id": gi(o, "id"), "a": gi(o, "a"), "b": gi(o, "b"), "c": gi(o, "c"), "d": gi(o, "d"),
                             "res": res, "variant": variant, "ret": ret, "back": back, "st": project(&e)}));
         }
     }
